@@ -47,6 +47,26 @@ Strengthening done because of this campaign (each was a miss or a weak verdict f
   an output that carries several inscriptions, the oracle flags a commit input carrying an
   inscription anywhere but on the reinscribed sat, and the guard itself is modelled and proved
   (`c21_commit_guard_sound`, request line `batch.guard`).
+* C11b (the rune loop of `index_block` skipping the coinbase) was missed: no generated coinbase
+  carried a runestone.  `chaingen` now puts runestones into one coinbase in six (unnamed etchings with
+  premine/terms, mints, edicts); all index checks were re-run on the unchanged tree (0 disagreements:
+  the model already treated transaction 0 like any other).
+* C15b (the node-fetch loop of `spawn_fetcher` indexing the wrong outpoint) was missed by the quick
+  tier, which skipped the only stream with a non-zero first inscription height (`signet`, 112 402
+  blocks to mine).  A guarded hook (`ord::verif::overrides`, /repo e9779c6) lets the harness override the
+  activation heights, and the new stream `regtest-fh` (quick and thorough) runs the same scenarios on
+  short regtest chains: header-only fetching, multi-vout batches of node-fetched inputs, reveals whose
+  pointers land beyond input 0, lossy prefixes, runes below/above the first inscription height.
+* C24b (sign of the balance change dropped) and C03b (an unrecognized even field hidden behind a
+  second curse) were caught only as model disagreements at first: the generator now produces offers
+  that are valid in everything but the sign of the balance change (oracle `offer.oracle.sign` fails),
+  and C03's unbound clause has its own oracle on the real parser's flags (`ix.oracle.unbound`).
+* C23b is caught by a generated proof obligation rather than by a run: `fund_call_order` extracts every
+  call site of the node-funding helper and the theorem module proves by `decide` that an
+  *unconditional* `lock_non_cardinal_outputs` precedes each of them.
+* Totals: 59 seeded changes (37 + 10 + 12), every one reported as a VIOLATION by the check of its own
+  property in the quick tier as committed now; 8 needed a strengthening first (C05, C15, C16, C20
+  verdict, C24, C21b, C11b, C15b) and 2 a better verdict (C24b, C03b).
 * Independent of any seed: extractors read the source with comments removed (a comment added inside a
   parsed function no longer breaks an obligation: tested by inserting 3 800 comment lines and 1 400 blank
   lines into the tree), and a harness that no longer compiles against the working tree (rustc
